@@ -58,6 +58,42 @@ fn main() {
         eprintln!("usage: replay <harness> <file.json>");
         std::process::exit(2);
     }
+    if args[2] == "--search" {
+        // native search for a concrete witness of an obligation the solver found violable:
+        // replay <harness> --search <tries> <seed> [label]
+        let tries: u64 = args.get(3).and_then(|s| s.parse().ok()).unwrap_or(100000);
+        let seed: u64 = args.get(4).and_then(|s| s.parse().ok()).unwrap_or(1);
+        let f = match mmk::harness_by_name(&args[1]) {
+            Some(f) => f,
+            None => {
+                eprintln!("unknown harness {}", args[1]);
+                std::process::exit(2);
+            }
+        };
+        std::panic::set_hook(Box::new(|_| {}));
+        for i in 0..tries {
+            let mut src = mmk::Src::new_search(seed.wrapping_mul(0x9E3779B97F4A7C15).wrapping_add(i.wrapping_mul(0xD1B54A32D192ED03)));
+            let res = std::panic::catch_unwind(std::panic::AssertUnwindSafe(|| {
+                f(&mut src);
+            }));
+            let panicked = res.is_err();
+            if src.assume_failed {
+                continue;
+            }
+            if !src.failed.is_empty() || panicked {
+                let mut failed: Vec<String> = src.failed.iter().map(|s| s.to_string()).collect();
+                if panicked {
+                    failed.push("panic".to_string());
+                }
+                let vals: Vec<String> = src.vals.iter().map(|v| format!("[{}]", v.iter().map(|b| b.to_string()).collect::<Vec<_>>().join(","))).collect();
+                let fl: Vec<String> = failed.iter().map(|s| format!("\"{}\"", s.replace('\\', "\\\\").replace('"', "\\\""))).collect();
+                println!("{{\"harness\":\"{}\",\"found\":true,\"tries\":{},\"failed\":[{}],\"vals\":[{}]}}", args[1], i + 1, fl.join(","), vals.join(","));
+                return;
+            }
+        }
+        println!("{{\"harness\":\"{}\",\"found\":false,\"tries\":{}}}", args[1], tries);
+        return;
+    }
     let mut text = String::new();
     std::fs::File::open(&args[2]).expect("open replay file").read_to_string(&mut text).unwrap();
     let vals = parse_vals(&text);
